@@ -392,6 +392,27 @@ theorem Registry.add_succeeds {r : Registry} (mk : Client) (hcap : r.clients.len
   rw [hp]
   exact ⟨_, _, rfl⟩
 
+/-- A field update through the shared pointers of several clients at once (ids and connections untouched). -/
+def Registry.mapKeep (r : Registry) (g : Client → Client) : Registry := { r with clients := r.clients.map g }
+
+theorem Registry.Inv.mapKeep {r : Registry} (h : r.Inv) (g : Client → Client)
+    (hg : ∀ d, (g d).id = d.id ∧ (g d).conn = d.conn) : (r.mapKeep g).Inv := by
+  refine ⟨?_, ?_, ?_, ?_⟩
+  · show SortedIds (r.clients.map g)
+    unfold SortedIds
+    rw [List.pairwise_map]
+    exact h.sorted.imp (fun {a b} hab => by rw [(hg a).1, (hg b).1]; exact hab)
+  · intro c hc
+    obtain ⟨d, hd, rfl⟩ := List.mem_map.mp hc
+    rw [(hg d).1]; exact h.range d hd
+  · intro c hc
+    obtain ⟨d, hd, rfl⟩ := List.mem_map.mp hc
+    rw [(hg d).2]; exact h.conns d hd
+  · show ((r.clients.map g).map (fun c : Client => c.conn)).Nodup
+    rw [List.map_map]
+    have : ((fun c : Client => c.conn) ∘ g) = (·.conn) := by funext d; exact (hg d).2
+    rw [this]; exact h.connsNodup
+
 -- ------------------------------------------------------------------ histories of the table alone
 
 /-- A history of the client table alone: connections come and go. -/
